@@ -53,6 +53,13 @@ func (vc *VC) run() (err error) {
 		}
 		vc.assume(st, t)
 	}
+	for _, u := range vc.spec.Uses {
+		t, err := vc.lemmaInstance(env, u.E.(*ECall))
+		if err != nil {
+			return fmt.Errorf("%s use %s: %v", vc.key, u.Text, err)
+		}
+		vc.assume(st, t)
+	}
 	vc.cover(st, "cover.requires")
 
 	// process blocks in reverse post order ignoring back edges
@@ -947,19 +954,54 @@ func (vc *VC) doReturn(st *State, r *ssa.Return) error {
 	vc.curPos = r.Pos()
 	vc.retOrd++
 	for _, c := range vc.spec.Ensures {
-		t, err := env.compileBool(c.E)
+		parts, err := vc.splitClause(env, c)
 		if err != nil {
 			return fmt.Errorf("%s ensures#%d: %v", vc.key, c.N, err)
 		}
-		name := fmt.Sprintf("ensures#%d", c.N)
-		if c.Label != "" {
-			name = "ensures[" + c.Label + "]"
+		for _, pt := range parts {
+			name := fmt.Sprintf("ensures#%d", c.N)
+			if c.Label != "" {
+				name = "ensures[" + c.Label + "]"
+			}
+			name += pt.suffix + fmt.Sprintf("@ret%d", vc.retOrd)
+			o := vc.oblige(st, name, "ensures", pt.term, pt.text, c.Props)
+			o.Hint = &ReplayHint{Params: vc.paramTerms}
 		}
-		name += fmt.Sprintf("@ret%d", vc.retOrd)
-		o := vc.oblige(st, name, "ensures", t, c.Text, c.Props)
-		o.Hint = &ReplayHint{Params: vc.paramTerms}
 	}
 	return nil
+}
+
+type clausePart struct{ suffix, term, text string }
+
+// splitClause compiles a clause; a clause that is exactly inv(x) yields one part per invariant clause so
+// that each gets its own named obligation.
+func (vc *VC) splitClause(env *Env, c *Clause) ([]clausePart, error) {
+	if call, ok := c.E.(*ECall); ok && call.Fun == "inv" && len(call.Args) == 1 {
+		v, err := env.compileVal(call.Args[0])
+		if err != nil {
+			return nil, err
+		}
+		if ti := vc.typeInvOf(v.Ty); ti != nil {
+			var out []clausePart
+			for _, ic := range ti.Clauses {
+				lab := ic.Label
+				if lab == "" {
+					lab = fmt.Sprint(ic.N)
+				}
+				t, err := env.with(ti.Var, v).compileBool(ic.E)
+				if err != nil {
+					return nil, err
+				}
+				out = append(out, clausePart{".inv[" + lab + "]", t, "inv(" + call.Args[0].String() + ")[" + lab + "]: " + ic.Text})
+			}
+			return out, nil
+		}
+	}
+	t, err := env.compileBool(c.E)
+	if err != nil {
+		return nil, err
+	}
+	return []clausePart{{"", t, c.Text}}, nil
 }
 
 func (vc *VC) exec(st *State, ins ssa.Instruction) error {
@@ -975,10 +1017,14 @@ func (vc *VC) exec(st *State, ins ssa.Instruction) error {
 	case *ssa.FieldAddr:
 		base := vc.val(st, x.X)
 		// x.X may itself be an address of a nested struct
+		embedded := false
 		if a, ok := vc.addrs[x.X]; ok && a.Kind == "obj" {
 			base = a.Ref
+			embedded = a.Sub
 		}
-		vc.panicOb(st, "nil", "field("+fieldName(x.X.Type(), x.Field)+")", sx("not", sx("=", base, "0")))
+		if !embedded { // storage embedded in another object is never nil by itself
+			vc.panicOb(st, "nil", "field("+fieldName(x.X.Type(), x.Field)+")", sx("not", sx("=", base, "0")))
+		}
 		comp, sortC, fld := vc.fieldCompOf(x.X.Type(), x.Field)
 		a := &Addr{Kind: "field", Comp: comp, Sort: vc.sortOf(fld.Type()), Ref: base, Typ: fld.Type()}
 		_ = sortC
@@ -1805,4 +1851,84 @@ func (vc *VC) typeAssert(st *State, x *ssa.TypeAssert) {
 	}
 	vc.panicOb(st, "assert", "type("+typeName(x.AssertedType)+")", ok)
 	vc.setVal(x, res)
+}
+
+// lemmaInstance compiles hyps ==> concls of a declared lemma with its variables bound to the given arguments.
+// The lemma itself is a separate obligation (generateLemmas).
+func (vc *VC) lemmaInstance(env *Env, call *ECall) (string, error) {
+	var lm *Lemma
+	for _, l := range vc.cs.Lemmas {
+		if l.Name == call.Fun || strings.HasSuffix(l.Name, "."+call.Fun) {
+			lm = l
+		}
+	}
+	if lm == nil {
+		return "", fmt.Errorf("unknown lemma %s", call.Fun)
+	}
+	if len(call.Args) != len(lm.Vars) {
+		return "", fmt.Errorf("lemma %s takes %d arguments", lm.Name, len(lm.Vars))
+	}
+	n := env
+	for i, v := range lm.Vars {
+		a, err := env.compileVal(call.Args[i])
+		if err != nil {
+			return "", err
+		}
+		n = n.with(v.Name, Val{T: a.T, S: a.S})
+	}
+	var hyps, concls []string
+	for _, h := range lm.Hyps {
+		t, err := n.compileBool(h.E)
+		if err != nil {
+			return "", err
+		}
+		hyps = append(hyps, t)
+	}
+	for _, c := range lm.Concl {
+		t, err := n.compileBool(c.E)
+		if err != nil {
+			return "", err
+		}
+		concls = append(concls, t)
+	}
+	vc.assumedUse["lemma "+lm.Name+" (proved as its own obligation)"] = true
+	return smtImp(smtAnd(hyps...), smtAnd(concls...)), nil
+}
+
+// lemmaObligations generates the standalone proof obligations of a lemma.
+func lemmaObligations(w *World, cs *Contracts, lm *Lemma) ([]*Obligation, error) {
+	vc := newVC(w, cs, nil, nil, &FuncSpec{Key: lm.Name, Props: lm.Props, Modes: map[string]string{}})
+	vc.key = lm.Name
+	st := &State{reach: "true", heap: map[string]string{}, cells: map[*ssa.Alloc]string{}, iters: map[ssa.Value]string{}}
+	st.allocTop = vc.declareNamed("allocTop@0", "Int")
+	vc.allocBase = st.allocTop
+	var pkg *types.Package
+	for path, sp := range w.SSAPkgs {
+		if strings.HasPrefix(path, modulePath) && sp.Pkg.Name() == strings.SplitN(lm.Name, ".", 2)[0] {
+			pkg = sp.Pkg
+		}
+	}
+	env := &Env{vc: vc, st: st, old: st, vars: map[string]Val{}, pkg: pkg}
+	for _, v := range lm.Vars {
+		_, s := env.lookupType(v.Type)
+		env.vars[v.Name] = Val{T: vc.declareNamed("l_"+v.Name, s), S: s}
+	}
+	for _, h := range lm.Hyps {
+		t, err := env.compileBool(h.E)
+		if err != nil {
+			return nil, err
+		}
+		vc.assert(t)
+	}
+	for _, c := range lm.Concl {
+		t, err := env.compileBool(c.E)
+		if err != nil {
+			return nil, err
+		}
+		vc.oblige(st, fmt.Sprintf("concl#%d", c.N), "lemma", t, c.Text, lm.Props)
+	}
+	for _, ob := range vc.obls {
+		ob.Cmds = vc.cmds[:ob.Pos]
+	}
+	return vc.obls, nil
 }
